@@ -129,14 +129,14 @@ Section Safe.
 
   (** ... and while help_scan moves the cell x of record h *)
   Lemma safe_push2 t r h srcl x tl v rest (Q : option bool -> lview -> Prop) :
-    v_rec v = Some r -> v_cl v = ClAct h srcl (x :: tl) :: rest -> (forall cl, In cl rest -> crec cl <> r) -> h <> r ->
+    v_rec v = Some r -> v_scan v = None -> v_cl v = ClAct h srcl (x :: tl) :: rest -> (forall cl, In cl rest -> crec cl <> r) -> h <> r ->
     (forall o, Q o (with_cl v (ClAct h srcl tl :: rest))) -> safe t (push c r x) v Q.
   Proof.
-    intros Hr Hcl Hrest Hhr HQ. unfold push. act. cbn [a_ld_cur fst snd vL].
+    intros Hr Hns Hcl Hrest Hhr HQ. unfold push. act. cbn [a_ld_cur fst snd vL].
     set (l := r_ret (get_rec g r)).
     exists (set_claims a t (ClAct r l (l ++ [x]) :: ClAct h srcl tl :: rest)
               (set_eff (set_eff (a_eff a) h (Some tl)) r (Some (l ++ [x])))).
-    split; [apply inv_ld_cur_move; [exact HI|now rewrite Hv|now rewrite Hv|exact Hrest|exact Hhr]|].
+    split; [apply inv_ld_cur_move; [exact HI|now rewrite Hv|now rewrite Hv|now rewrite Hv|exact Hrest|exact Hhr]|].
     split; [apply frame_set_claims|].
     rewrite view_set_claims_same, Hv.
     destruct (Nat.leb (cR c) (List.length l)).
@@ -201,18 +201,21 @@ Section Safe.
 
   (** ** stage 2: disposer calls + the store of current_, the thread holding the claim [ClAct r l l] *)
   Lemma safe_stage2_tail t r l v rest sv freed kept (Q : list Z -> lview -> Prop) :
-    v_cl v = ClAct r l l :: rest -> v_scan v = Some sv -> sc_todo sv = Some [] ->
+    v_rec v = Some r -> v_cl v = ClAct r l l :: rest -> v_scan v = Some sv -> sc_todo sv = Some [] ->
     (forall p, countZ p l = (countZ p freed + countZ p kept)%Z) ->
     (forall g a tr, Inv c g a tr -> view a t = v ->
        forall p, In p freed -> (cInplace c = true -> retire_once tr) -> ~ In p (sc_coll sv)) ->
     Q kept (with_cl v rest) ->
     safe t (Emit (map ev_dispose freed) (Act (a_st_cur r kept) (fun _ => Ret kept))) v Q.
   Proof.
-    intros Hcl Hsv Htodo Hsplit Hfr HQ. act.
+    intros Hrec Hcl Hsv Htodo Hsplit Hfr HQ. act.
     exists (set_claims a t (ClAct r l kept :: rest) (set_eff (a_eff a) r (Some kept))).
     split; [|split; [apply frame_set_claims|]].
-    - apply inv_emit_dispose; [exact HI|now rewrite Hv|exact Hsplit|].
-      eapply safe_cl_dispose; [exact HI|rewrite Hv; exact Hsv|exact Htodo|]. apply (Hfr g a tr HI Hv).
+    - apply inv_emit_dispose; [exact HI|now rewrite Hv|exact Hsplit| |].
+      + eapply safe_cl_dispose; [exact HI|rewrite Hv; exact Hsv|exact Htodo|]. apply (Hfr g a tr HI Hv).
+      + eapply (pre_cl_dispose c g a tr t sv r l l rest); [exact HI|now rewrite Hv|now rewrite Hv|now rewrite Hv|].
+        intros p Hp. apply countZ_pos_In. apply countZ_pos_In in Hp. rewrite (Hsplit p).
+        pose proof (countZ_nonneg p kept). lia.
     - rewrite view_set_claims_same, Hv. cbn [Conc.safe]. intros g1 a1 tr1 HI1 Hv1. cbn [a_st_cur fst snd].
       exists (set_claims a1 t rest (set_eff (a_eff a1) r None)).
       split; [eapply inv_st_cur; [exact HI1|rewrite Hv1; reflexivity|discriminate]|]. split; [apply frame_set_claims|].
@@ -223,19 +226,19 @@ Section Safe.
 
   (** classic stage 2, no claim held yet *)
   Lemma safe_classic2_fresh t r v plist (Q : list Z -> lview -> Prop) :
-    owns v r -> no_claim_on v r -> v_scan v = Some (mkScan plist (Some []) None) ->
+    v_rec v = Some r -> no_claim_on v r -> v_scan v = Some (mkScan plist (Some []) None) ->
     (forall kept, incl kept plist -> Q kept v) ->
     safe t (Act (a_ld_cur r) (fun v2 =>
               let l := vL v2 in
               Emit (map ev_dispose (classic_freed plist l))
                 (Act (a_st_cur r (classic_kept plist l)) (fun _ => Ret (classic_kept plist l))))) v Q.
   Proof.
-    intros Hown Hno Hsv HQ. act. cbn [a_ld_cur fst snd vL].
+    intros Hrec Hno Hsv HQ. act. cbn [a_ld_cur fst snd vL].
     set (l := r_ret (get_rec g r)).
     exists (set_claims a t (ClAct r l l :: v_cl (view a t)) (set_eff (a_eff a) r (Some l))).
-    split; [apply inv_ld_cur_fresh; [exact HI|now rewrite Hv|now rewrite Hv]|]. split; [apply frame_set_claims|].
+    split; [apply inv_ld_cur_fresh; [exact HI|rewrite Hv; left; exact Hrec|now rewrite Hv]|]. split; [apply frame_set_claims|].
     rewrite view_set_claims_same, Hv.
-    eapply (safe_stage2_tail t r l _ (v_cl v)); [reflexivity|exact Hsv|reflexivity| | |].
+    eapply (safe_stage2_tail t r l _ (v_cl v)); [exact Hrec|reflexivity|exact Hsv|reflexivity| | |].
     - intros p. apply classic_split.
     - intros g1 a1 tr1 _ _ p Hp _. cbn. now apply classic_freed_notin in Hp.
     - rewrite with_cl_cl, with_cl_id. apply HQ. intros p. apply classic_kept_incl.
@@ -243,18 +246,18 @@ Section Safe.
 
   (** classic stage 2 entered from inplace_scan (odd pointers): the claim is already held *)
   Lemma safe_classic2_held t r l v rest plist (Q : list Z -> lview -> Prop) :
-    v_cl v = ClAct r l l :: rest -> v_scan v = Some (mkScan plist (Some []) None) ->
+    v_rec v = Some r -> v_cl v = ClAct r l l :: rest -> v_scan v = Some (mkScan plist (Some []) None) ->
     (forall kept, incl kept plist -> Q kept (with_cl v rest)) ->
     safe t (Act (a_ld_cur r) (fun v2 =>
               let l := vL v2 in
               Emit (map ev_dispose (classic_freed plist l))
                 (Act (a_st_cur r (classic_kept plist l)) (fun _ => Ret (classic_kept plist l))))) v Q.
   Proof.
-    intros Hcl Hsv HQ. act. cbn [a_ld_cur fst snd vL].
+    intros Hrec Hcl Hsv HQ. act. cbn [a_ld_cur fst snd vL].
     assert (Hin : In (ClAct r l l) (v_cl (view a t))) by (rewrite Hv, Hcl; now left).
     destruct (i_claim _ _ _ _ HI t _ Hin) as (_ & Hact & _). cbn in Hact. rewrite Hact.
     exists a. split; [apply inv_acc; [exact HI|discriminate]|]. split; [apply frame_refl|]. rewrite Hv.
-    eapply (safe_stage2_tail t r l v rest); [exact Hcl|exact Hsv|reflexivity| | |].
+    eapply (safe_stage2_tail t r l v rest); [exact Hrec|exact Hcl|exact Hsv|reflexivity| | |].
     - intros p. apply classic_split.
     - intros g1 a1 tr1 _ _ p Hp _. cbn. now apply classic_freed_notin in Hp.
     - apply HQ. intros p. apply classic_kept_incl.
@@ -270,12 +273,12 @@ Section Safe.
     forall kept sv' seen, incl (v_seen v) seen -> incl kept (sc_coll sv') -> Q kept (scan_view v sv' seen).
 
   Lemma safe_classic_scan_fresh t r v (Q : list Z -> lview -> Prop) :
-    owns v r -> no_claim_on v r -> v_scan v = Some (mkScan [] None None) -> scan_post v Q ->
+    v_rec v = Some r -> no_claim_on v r -> v_scan v = Some (mkScan [] None None) -> scan_post v Q ->
     safe t (classic_scan c r) v Q.
   Proof.
     intros Hown Hno Hsv HQ. unfold classic_scan. apply safe_stage1; [exact Hsv|].
     intros plist seen Hincl. apply safe_classic2_fresh.
-    - now apply owns_scan_view.
+    - exact Hown.
     - exact Hno.
     - reflexivity.
     - intros kept Hk. rewrite <- (scan_view_twice v (mkScan plist (Some []) None) seen (mkScan plist (Some []) None) seen).
@@ -283,12 +286,12 @@ Section Safe.
   Qed.
 
   Lemma safe_classic_scan_held t r l v rest (Q : list Z -> lview -> Prop) :
-    v_cl v = ClAct r l l :: rest -> v_scan v = Some (mkScan [] None None) ->
+    v_rec v = Some r -> v_cl v = ClAct r l l :: rest -> v_scan v = Some (mkScan [] None None) ->
     (forall kept sv' seen, incl (v_seen v) seen -> incl kept (sc_coll sv') -> Q kept (with_cl (scan_view v sv' seen) rest)) ->
     safe t (classic_scan c r) v Q.
   Proof.
-    intros Hcl Hsv HQ. unfold classic_scan. apply safe_stage1; [exact Hsv|].
-    intros plist seen Hincl. eapply safe_classic2_held; [exact Hcl|reflexivity|].
+    intros Hrec Hcl Hsv HQ. unfold classic_scan. apply safe_stage1; [exact Hsv|].
+    intros plist seen Hincl. eapply safe_classic2_held; [exact Hrec|exact Hcl|reflexivity|].
     intros kept Hk. apply HQ; assumption.
   Qed.
 
@@ -308,10 +311,10 @@ Section Safe.
   Proof. destruct v; cbn; intros ->; reflexivity. Qed.
 
   Lemma safe_inplace_scan t r v (Q : list Z -> lview -> Prop) :
-    cInplace c = true -> owns v r -> no_claim_on v r -> v_scan v = Some (mkScan [] None None) -> scan_post v Q ->
+    cInplace c = true -> v_rec v = Some r -> no_claim_on v r -> v_scan v = Some (mkScan [] None None) -> scan_post v Q ->
     safe t (inplace_scan c r) v Q.
   Proof.
-    intros Hip Hown Hno Hsv HQ. unfold inplace_scan. act. cbn [a_ld_cur fst snd vL].
+    intros Hip Hrec Hno Hsv HQ. assert (Hown : owns v r) by (left; exact Hrec). unfold inplace_scan. act. cbn [a_ld_cur fst snd vL].
     destruct (r_ret (get_rec g r)) as [|x0 l0] eqn:El.
     - exists a. split; [apply inv_acc; [exact HI|discriminate]|]. split; [apply frame_refl|]. rewrite Hv.
       cbn [Conc.safe]. rewrite <- (scan_view_self v _ Hsv). apply HQ; [apply incl_refl|intros x []].
@@ -321,10 +324,10 @@ Section Safe.
       split; [apply Hstep; rewrite Hv; assumption|]. split; [apply frame_set_claims|].
       rewrite view_set_claims_same, Hv.
       destruct (existsb Z.odd l).
-      + eapply safe_classic_scan_held; [reflexivity|exact Hsv|].
+      + eapply safe_classic_scan_held; [exact Hrec|reflexivity|exact Hsv|].
         intros kept sv' seen Hi Hk. cbn in Hi. change (Q kept (scan_view v sv' seen)). apply HQ; assumption.
       + apply safe_stage1; [exact Hsv|]. intros hs seen Hincl.
-        eapply (safe_stage2_tail t r l _ (v_cl v)); [reflexivity|reflexivity|reflexivity| | |].
+        eapply (safe_stage2_tail t r l _ (v_cl v)); [exact Hrec|reflexivity|reflexivity|reflexivity| | |].
         * intros p. apply inplace_split.
         * intros g1 a1 tr1 HI1 Hv1 p Hp Hro. cbn [sc_coll].
           apply (inplace_freed_notin hs l p); [|exact Hp].
@@ -356,8 +359,8 @@ Section Safe.
       split; [apply frame_upd_view|]. rewrite view_upd_same, Hv1. unfold v1. rewrite scan_done_view by exact Hns.
       apply HQ. exact Hincl. }
     destruct (cInplace c) eqn:Ei.
-    - apply safe_inplace_scan; auto; [left; exact Hr].
-    - apply safe_classic_scan_fresh; auto; [left; exact Hr].
+    - apply safe_inplace_scan; auto.
+    - apply safe_classic_scan_fresh; auto.
   Qed.
 
   (** ** retire *)
@@ -388,7 +391,7 @@ Section Safe.
     - cbn [Conc.safe]. specialize (HQ (v_seen v) (incl_refl _)).
       replace (with_seen (with_cl v (ClAct h srcl [] :: rest)) (v_seen v)) with v in HQ; [exact HQ|].
       destruct v; cbn in *; subst; reflexivity.
-    - apply Conc.safe_bind. eapply safe_push2; [exact Hr|exact Hcl|exact Hrest|exact Hhr|].
+    - apply Conc.safe_bind. eapply safe_push2; [exact Hr|exact Hns|exact Hcl|exact Hrest|exact Hhr|].
       set (v1 := with_cl v (ClAct h srcl tl :: rest)).
       assert (Hloop : forall seen1, incl (v_seen v) seen1 -> safe t (move_loop c r tl) (with_seen v1 seen1) Q).
       { intros seen1 Hi1. apply IH; [exact Hr|exact Hns|reflexivity|].
@@ -514,7 +517,7 @@ Section Safe.
     - exists a. split; [apply inv_acc; [exact HI|discriminate]|]. split; [apply frame_refl|]. rewrite Hv. now apply IH.
     - assert (Hing : In r (g_list g)) by (apply (i_seen _ _ _ _ HI t r); rewrite Hv; apply Hincl; now left).
       exists (upd_view a t (with_rec (view a t) (Some r))). split.
-      { apply inv_acquire_rec; [apply inv_acc; [exact HI|discriminate]|now rewrite Hv|exact Hing|exact Eo]. }
+      { apply inv_acquire_rec; [apply inv_acc; [exact HI|discriminate]|now rewrite Hv|now rewrite Hv|exact Hing|exact Eo]. }
       split; [apply frame_upd_view|]. rewrite view_upd_same, Hv. cbn [with_rec base v_held v_rec v_clr v_scan v_cl v_seen].
       clear g a tr HI Hv Eo Hing. act. cbn [a_st_free fst snd]. exists a.
       split; [apply inv_st_free; apply inv_acc; [exact HI|discriminate]|]. split; [apply frame_refl|]. rewrite Hv. apply HQ1.
@@ -529,7 +532,7 @@ Section Safe.
     intros HQ1 HQ2. induction fuel as [|fuel IH]; intros exp; cbn [push_loop]; [exact HQ2|].
     act. unfold a_cas_head. destruct (same_head exp (g_list g)); cbn [fst snd vB vR].
     - exists (upd_view a t (pushed_view (view a t) r)). split.
-      { apply (inv_push c g a _ t r); [apply inv_acc; [exact HI|discriminate]|now rewrite Hv|rewrite Hv; now left]. }
+      { apply (inv_push c g a _ t r); [apply inv_acc; [exact HI|discriminate]|now rewrite Hv|now rewrite Hv|rewrite Hv; now left]. }
       split; [apply frame_upd_view|]. rewrite view_upd_same, Hv. unfold pushed_view, fresh_view. cbn [v_held v_rec v_clr v_scan v_cl v_seen].
       rewrite remove_single. exact HQ1.
     - exists a. split; [apply inv_acc; [exact HI|discriminate]|]. split; [apply frame_refl|]. rewrite Hv. apply IH.
@@ -611,14 +614,14 @@ Section Safe.
       resp. destruct (Z.eqb old 0); [cbn; rewrite Er; eauto|].
       (* the retire event *)
       act. exists (set_claims a t (ClPush r old :: v_cl (view a t)) (set_eff (a_eff a) r (Some (r_ret (get_rec g r) ++ [old])))).
-      split; [apply inv_emit_retire; [exact HI|now rewrite Hv|rewrite Hv; intros cl []]|]. split; [apply frame_set_claims|].
+      split; [apply inv_emit_retire; [exact HI|now rewrite Hv|now rewrite Hv|rewrite Hv; intros cl []]|]. split; [apply frame_set_claims|].
       rewrite view_set_claims_same, Hv. cbn [with_cl base v_held v_rec v_clr v_scan v_cl v_seen].
       apply Conc.safe_bind. eapply safe_retire; [reflexivity|reflexivity|reflexivity|intros cl []|].
       intros seen' _. cbn [with_seen with_cl v_held v_rec v_clr v_scan v_cl v_seen]. resp. cbn. rewrite Er. eexists; reflexivity.
     - (* retire *) destruct (l_rec lo) as [r|] eqn:Er; [|exact Hskip]. cbn [op_valid negb].
       destruct ((o <=? 0)%Z || (ARENA <=? o)%Z)%bool; [exact Hskip|].
       act. exists (set_claims a t (ClPush r o :: v_cl (view a t)) (set_eff (a_eff a) r (Some (r_ret (get_rec g r) ++ [o])))).
-      split; [apply inv_emit_retire; [exact HI|now rewrite Hv|rewrite Hv; intros cl []]|]. split; [apply frame_set_claims|].
+      split; [apply inv_emit_retire; [exact HI|now rewrite Hv|now rewrite Hv|rewrite Hv; intros cl []]|]. split; [apply frame_set_claims|].
       rewrite view_set_claims_same, Hv. cbn [with_cl base v_held v_rec v_clr v_scan v_cl v_seen].
       apply Conc.safe_bind. eapply safe_retire; [reflexivity|reflexivity|reflexivity|intros cl []|].
       intros seen' _. cbn [with_seen with_cl v_held v_rec v_clr v_scan v_cl v_seen]. resp. cbn. rewrite Er. eexists; reflexivity.
